@@ -1610,6 +1610,17 @@ def _iskeyword(I, args, kwargs):
     return _keyword.iskeyword(x)
 
 
+if hasattr(_keyword, "issoftkeyword"):
+    @model(_keyword.issoftkeyword)
+    def _issoftkeyword(I, args, kwargs):
+        (x,) = args
+        if isinstance(x, SV):
+            _used("keyword.issoftkeyword = membership in this interpreter's keyword.softkwlist")
+            t = x.t
+            return SV(V.VBool(z3.And(V.is_VStr(t), z3.InRe(V.vs(t), z3.Union(*[z3.Re(k) for k in _keyword.softkwlist])))))
+        return _keyword.issoftkeyword(x)
+
+
 class CharSetOf:
     """set(<symbolic string>): only compared with concrete character sets"""
 
